@@ -837,7 +837,8 @@ def log_max(m, a, c):
     return 0
 
 
-@model("core::fmt::rt::Argument::new_display", "core::fmt::rt::Argument::new_debug", "Argument::new_display", "Argument::new_debug")
+@model("core::fmt::rt::Argument::new_display", "core::fmt::rt::Argument::new_debug", "Argument::new_display", "Argument::new_debug",
+       "core::fmt::rt::Argument::new_upper_hex", "core::fmt::rt::Argument::new_lower_hex", "Argument::new_upper_hex", "Argument::new_lower_hex")
 def fmt_arg(m, a, c):
     try:
         return Opaque("fmtarg", (copy_val(deref(a[0])),))
